@@ -522,6 +522,23 @@ static bool explore(RunState &rs, int prog, int bound, int max_violations) {
             if (more && !stop) { Task c{prog, bound, MODE_SUBTREE, t.floor, std::move(nxt)}; tasks.push_front(std::move(c)); }
             return;
         }
+        // SIGKILL never comes from the code under test (sanitizers abort, wild accesses fault): it is the environment, e.g. the kernel's OOM killer when several explorations
+        // run at once.  The execution in flight is run again in a fresh worker, once per schedule, before the death is taken for a finding.
+        if (WIFSIGNALED(st) && WTERMSIG(st) == SIGKILL && (sh.slot.outcome == VS_OUT_RUNNING || sh.slot.outcome == VS_OUT_OK)) {
+            const vs_record &rr = sh.slot.rec;
+            if (++hang_retries["killed:" + sched_str(rr.choice, rr.n)] < 2) {
+                Task t = w.task; t.floor = std::max(t.floor, (int)sh.cur_floor);
+                Prefix cur; cur.choice.assign(rr.choice, rr.choice + rr.n); cur.nalt.assign(rr.nalt, rr.nalt + rr.n); cur.sig.assign(rr.sig, rr.sig + rr.n);
+                close(w.cmdfd); close(w.donefd); w.pid = -1; w.cmdfd = w.donefd = -1; w.busy = false;
+                spawn_worker(k);
+                if (!stop) {
+                    if (t.mode == MODE_SINGLE) { t.noprune_first = 1; tasks.push_front(t); }
+                    else if ((int)cur.choice.size() < t.floor) { Task again = w.task; again.noprune_first = 1; tasks.push_front(again); }
+                    else { Task c{prog, bound, MODE_SUBTREE, t.floor, std::move(cur)}; c.noprune_first = 1; tasks.push_front(std::move(c)); }
+                }
+                return;
+            }
+        }
         ps.schedules++; ps.steps += sh.slot.steps;           // the execution that died
         int outcome = sh.slot.outcome;
         std::string msg = sh.slot.msg;
